@@ -164,6 +164,18 @@ func (p *Program) resolveType(pkg *ssa.Package, expr string) types.Type {
 	case "":
 		return nil
 	}
+	if strings.HasPrefix(expr, "*") {
+		if t := p.resolveType(pkg, expr[1:]); t != nil {
+			return types.NewPointer(t)
+		}
+		return nil
+	}
+	if strings.HasPrefix(expr, "[]") {
+		if t := p.resolveType(pkg, expr[2:]); t != nil {
+			return types.NewSlice(t)
+		}
+		return nil
+	}
 	if pkg != nil {
 		if tv, err := types.Eval(p.Fset, pkg.Pkg, token.NoPos, expr); err == nil && tv.IsType() {
 			return tv.Type
